@@ -317,6 +317,8 @@ class Interp(ExprMixin, WhileMixin):
                         raise _Raise(raised[c - 1][0], raised[c - 1][1])
             if is_gen:
                 v = env["__yield__"]
+                v._gen = True   # type: ignore[attr-defined]  # a generator object: single use, consumed from the front
+                v._pos = 0      # type: ignore[attr-defined]
             self.observed_returns.setdefault(key, []).append(_snapshot(v))
             return v
         finally:
@@ -871,6 +873,24 @@ class Interp(ExprMixin, WhileMixin):
             it = PyList([Const(x) for x in seq])
         if isinstance(it, PyDict):
             it = PyList([Const(k) for k in it.items])
+        if isinstance(it, PyList) and getattr(it, "_lazy", None) is not None:
+            self.force_lazy(it)
+        if isinstance(it, PyList) and getattr(it, "_gen", False):
+            if it.loop_parts:
+                if getattr(it, "_touched", False):
+                    raise AnalysisError("a generator over an unknown number of items is iterated a second time: what is left of it is not modelled",
+                                        module.loc(node))
+                it._touched = True  # type: ignore[attr-defined]
+            else:
+                # what the generator has not handed out yet, from the front; a `break` leaves the rest for the next consumer
+                try:
+                    while it._pos < len(it.items):
+                        item = it.items[it._pos]
+                        it._pos += 1
+                        body(item)
+                except _Break:
+                    self._broke = True
+                return
         if isinstance(it, (PyList, PyTuple)) and not getattr(it, "loop_parts", None):
             try:
                 for item in list(it.items):
